@@ -282,7 +282,9 @@ def startOne (name : String) : S → S :=
       (expectResults (printResults startLine (some (K do_start_c1_1))))
       (fun code text s =>
         if onCode do_start_g4 code then s |> out (gp.1 ++ ": ERROR (no such group)") |> setExit (K do_start_a7)
-        else s |> setExit (K do_start_a8) |> raiseFault code text)
+        else if onCode do_start_g5 code then
+          s |> out (gp.1 ++ ": ERROR (supervisor shutting down)") |> setExit (K do_start_a9)
+        else s |> setExit (K do_start_a10) |> raiseFault code text)
       raiseSock
   else
     rpc "startProcess" [name]
@@ -310,6 +312,7 @@ def stopOne (name : String) : S → S :=
       (fun code text s =>
         let s := setExit (K do_stop_a6) s
         if onCode do_stop_g4 code then s |> out (gp.1 ++ ": ERROR (no such group)")
+        else if onCode do_stop_g5 code then s |> out (gp.1 ++ ": ERROR (supervisor shutting down)")
         else s |> raiseFault code text)
       raiseSock
   else
@@ -344,6 +347,8 @@ def signalOne (sig : String) (name : String) : S → S :=
       (expectResults (printResults signalLine none))
       (fun code text s =>
         if onCode do_signal_g4 code then s |> out (gp.1 ++ ": ERROR (no such group)") |> setExit (K do_signal_a9)
+        else if onCode do_signal_g5 code then
+          s |> out (gp.1 ++ ": ERROR (supervisor shutting down)") |> setExit (K do_signal_a11)
         else s |> raiseFault code text)
       raiseSock
   else
@@ -458,25 +463,31 @@ def addOne (name : String) : S → S :=
   rpc "addProcessGroup" [name]
     (expectUnit (out (name ++ ": added process group")))
     (fun code text s =>
-      if onCode do_add_g0 code then s |> out "ERROR: shutting down" |> setExit (K do_add_a2)
-      else if onCode do_add_g1 code then s |> out "ERROR: process group already active"
-      else if onCode do_add_g2 code then s |> out ("ERROR: no such process/group: " ++ name) |> setExit (K do_add_a3)
-      else s |> setExit (K do_add_a4) |> raiseFault code text)
+      if onCode do_add_g1 code then s |> out "ERROR: shutting down" |> setExit (K do_add_a3)
+      else if onCode do_add_g2 code then s |> out "ERROR: process group already active"
+      else if onCode do_add_g3 code then s |> out ("ERROR: no such process/group: " ++ name) |> setExit (K do_add_a4)
+      else s |> setExit (K do_add_a5) |> raiseFault code text)
     raiseSock
 
-def doAdd (arg : String) : S → S := fun s => (pySplit arg).foldl (fun s n => addOne n s) s
+def doAdd (arg : String) : S → S := fun s =>
+  if onNames do_add_g0 (pySplit arg) then
+    s |> out "Error: add requires a process/group name" |> setExit (K do_add_a1) |> outs help_add
+  else (pySplit arg).foldl (fun s n => addOne n s) s
 
 def removeOne (name : String) : S → S :=
   rpc "removeProcessGroup" [name]
     (expectUnit (out (name ++ ": removed process group")))
     (fun code text s =>
-      let s := setExit (K do_remove_a2) s
-      if onCode do_remove_g0 code then s |> out ("ERROR: process/group still running: " ++ name)
-      else if onCode do_remove_g1 code then s |> out ("ERROR: no such process/group: " ++ name)
+      let s := setExit (K do_remove_a3) s
+      if onCode do_remove_g1 code then s |> out ("ERROR: process/group still running: " ++ name)
+      else if onCode do_remove_g2 code then s |> out ("ERROR: no such process/group: " ++ name)
       else s |> raiseFault code text)
     raiseSock
 
-def doRemove (arg : String) : S → S := fun s => (pySplit arg).foldl (fun s n => removeOne n s) s
+def doRemove (arg : String) : S → S := fun s =>
+  if onNames do_remove_g0 (pySplit arg) then
+    s |> out "Error: remove requires a process/group name" |> setExit (K do_remove_a1) |> outs help_remove
+  else (pySplit arg).foldl (fun s n => removeOne n s) s
 
 def doShutdown (arg : String) : S → S :=
   if onArg do_shutdown_g0 arg then
@@ -561,14 +572,17 @@ def dedupSorted (l : List String) : List String :=
 /-- `if valid_gnames and gname not in valid_gnames: continue` -/
 def skipped (valid : List String) (g : String) : Bool := !valid.isEmpty && !valid.contains g
 
+/-- do_update.stop_failures: some entry is neither SUCCESS nor NOT_RUNNING -/
+def stopFailed (rs : List Res) : Bool := rs.any fun r => !(updateStopOk.contains r.status)
+
 def updRemoved (valid : List String) (g : String) : S → S :=
   if skipped valid g then id
   else
     rpc "stopProcessGroup" [g]
       (expectResults fun rs s =>
         let s := out (g ++ ": stopped") s
-        if rs.any (fun r => r.status == Faults_FAILED) then
-          s |> out (g ++ ": has problems; not removing") |> setExit (K do_update_a10)
+        if stopFailed rs then
+          s |> out (g ++ ": has problems; not removing") |> setExit (K do_update_a9)
         else
           s |> rpc "removeProcessGroup" [g] (expectUnit (out (g ++ ": removed process group"))) raiseFault raiseSock)
       raiseFault raiseSock
@@ -577,8 +591,12 @@ def updChanged (valid : List String) (g : String) : S → S :=
   if skipped valid g then id
   else
     rpc "stopProcessGroup" [g]
-      (expectResults fun _ s => s |> out (g ++ ": stopped")
-        |> rpc "removeProcessGroup" [g]
+      (expectResults fun rs s =>
+        let s := out (g ++ ": stopped") s
+        if stopFailed rs then
+          s |> out (g ++ ": has problems; not updating") |> setExit (K do_update_a11)
+        else
+          s |> rpc "removeProcessGroup" [g]
             (expectUnit (rpc "addProcessGroup" [g] (expectUnit (out (g ++ ": updated process group"))) raiseFault raiseSock))
             raiseFault raiseSock)
       raiseFault raiseSock
@@ -627,12 +645,12 @@ def doUpdate (arg : String) : S → S :=
 def lowerAscii (s : String) : String := String.ofList (s.toList.map Char.toLower)
 
 /-- `_tailf(path)`: the HTTP transport is one pseudo call answered `int status` (non-200: the listener writes
-    to stderr) or `str body` (status 200; the body goes to the process' stdout, not through `ctl.output`) -/
+    to stderr and TailListener.error sets the exit status) or `str body` (status 200; the body goes to the process' stdout, not through `ctl.output`) -/
 def tailF (path : String) : S → S := fun s =>
   s |> out "==> Press Ctrl-C to exit <=="
     |> rpc "GET" [path]
         (fun v s => match v with
-          | .int _ => setP (fun p => { p with stderr := true }) s
+          | .int _ => s |> setP (fun p => { p with stderr := true }) |> setExit (K taillistener_a0)
           | .str _ => s
           | _ => badScript s)
         (fun _ _ => badScript) (fun _ => badScript)
